@@ -183,6 +183,14 @@ impl Property for C12 {
             if i % stride != 0 && i + 1 != n { continue; }
             for k in kinds_for(c) { let mut t = tape.to_vec(); t[0] = 1; t[1] = i as u64; t[2] = k; out.push(t); }
         }
+        // every pair of failing manifest swaps (renames are few per workload): a flush and a compaction that both
+        // fail at their last step leave two half-done publications behind for whoever comes next
+        let renames: Vec<usize> = calls.iter().enumerate().filter(|(_, c)| c.as_str() == "rename").map(|(i, _)| i).collect();
+        if renames.len() <= 10 {
+            for (x, i) in renames.iter().enumerate() { for j in renames.iter().skip(x + 1) {
+                for (ki, kj) in [(6u64, 6u64), (6, 10), (10, 6)] { let mut t = tape.to_vec(); t[0] = 2; t[1] = *i as u64; t[2] = ki; t[3] = *j as u64; t[4] = kj; out.push(t); }
+            } }
+        }
         let pairs = match tier { Tier::Quick => 4, Tier::Thorough => 24 };
         let mut h = fnv(0, &tape.iter().flat_map(|v| v.to_le_bytes()).collect::<Vec<u8>>());
         for _ in 0..pairs {
